@@ -91,6 +91,8 @@ pub use codeq;
 pub mod api;
 pub mod dump_writer;
 pub mod errors;
+#[cfg(raft_log_verif)]
+pub mod verif;
 
 pub use api::types::Types;
 pub use chunk::chunk_id::ChunkId;
